@@ -30,7 +30,69 @@ func genericMutants(tok []byte, yield func(m mutant)) {
 		yield(mutant{"prepend", strconv.Quote(e), append([]byte(e), tok...)})
 	}
 	if len(tok) > 0 {
-		yield(mutant{"double", "", append(append([]byte{}, tok...), tok...)})
+		yield(mutant{"twice", "", append(append([]byte{}, tok...), tok...)})
+	}
+}
+
+// charSubstMutants: every position replaced by every character of alpha
+// (all 256 byte values when alpha is empty).
+func charSubstMutants(alpha string) func([]byte, func(mutant)) {
+	return func(tok []byte, yield func(m mutant)) {
+		for i := range tok {
+			if alpha == "" {
+				for b := 0; b < 256; b++ {
+					if byte(b) == tok[i] {
+						continue
+					}
+					m := append([]byte{}, tok...)
+					m[i] = byte(b)
+					yield(mutant{"charsubst", strconv.Itoa(i) + ":" + strconv.Itoa(b), m})
+				}
+				continue
+			}
+			for _, c := range []byte(alpha) {
+				if c == tok[i] {
+					continue
+				}
+				m := append([]byte{}, tok...)
+				m[i] = c
+				yield(mutant{"charsubst", strconv.Itoa(i) + ":" + strconv.Itoa(int(c)), m})
+			}
+		}
+	}
+}
+
+// doubleEditMutants: n sampled pairs of edits, one in each half of the token;
+// the replacement characters are mostly taken from the token's own alphabet so
+// that the text still decodes.
+func doubleEditMutants(next func(int) int, n int) func([]byte, func(mutant)) {
+	return func(tok []byte, yield func(m mutant)) {
+		if len(tok) < 4 {
+			return
+		}
+		h := len(tok) / 2
+		pick := func(old byte) byte {
+			for {
+				var c byte
+				if next(4) == 0 {
+					c = byte(next(256))
+				} else {
+					c = tok[next(len(tok))]
+				}
+				if c != old {
+					return c
+				}
+				if next(8) == 0 {
+					return old ^ 1
+				}
+			}
+		}
+		for k := 0; k < n; k++ {
+			i, j := next(h), h+next(len(tok)-h)
+			m := append([]byte{}, tok...)
+			m[i], m[j] = pick(tok[i]), pick(tok[j])
+			yield(mutant{"double", strconv.Itoa(i) + "," + strconv.Itoa(j), m})
+		}
 	}
 }
 
